@@ -62,7 +62,7 @@ def run(ctx):
     # paseto-core / paseto-json
     for crate, sets in (("paseto-core", [[], ["serde"]]), ("paseto-json", [[], ["claims"]])):
         for s in sets:
-            env = dict(os.environ, CARGO_NET_OFFLINE="true", CARGO_TARGET_DIR=os.path.join(features.CACHE, "target-feat", "paseto-v1"))
+            env = dict(os.environ, CARGO_NET_OFFLINE="true", CARGO_TARGET_DIR=os.path.join(features.CACHE, "target-feat" + features.SCRATCH_SUFFIX(), "paseto-v1"))
             cmd = ["cargo", "check", "--offline", "--quiet", "-p", crate, "--no-default-features"] + (["--features", ",".join(s)] if s else [])
             r = subprocess.run(cmd, cwd=REPO_, env=env, capture_output=True, text=True)
             ctx.add("R19.1", f"C19/builds/{crate}/{','.join(s) or 'none'}", r.returncode == 0, "" if r.returncode == 0 else r.stderr[-400:])
@@ -128,10 +128,10 @@ def run(ctx):
             chosen = [["verifying"], ["decrypting"]]
         for s in chosen:
             configs.append((c, s))
-    tgt = os.path.join(features.CACHE, "target" if REPO_ == features.REPO else "target-selftest")
+    tgt = os.path.join(features.CACHE, "target" if REPO_ == features.REPO else "target-selftest" + features.SCRATCH_SUFFIX())
     for c, s in configs:
         name = c + "+" + ",".join(s)
-        cfgname = ("feat-" if REPO_ == features.REPO else "selftest-feat-") + hashlibname(name)
+        cfgname = ("feat-" if REPO_ == features.REPO else "selftest" + features.SCRATCH_SUFFIX() + "-feat-") + hashlibname(name)
         try:
             fd = extract.extract(cfgname, repo=REPO_, features=s, pkgs=[c], target=tgt)
             cr = Crate(os.path.join(fd, c.replace("-", "_") + ".lib.json"))
